@@ -98,6 +98,10 @@ def run(F, R):
         if inner:
             wrappers[name] = inner
     r5_failure_window(F, R, drivers)
+    # R6: a driver-owned buffer that is still posted is not released: buffers parked in driver state leave it only after
+    # the completion was consumed (shared with C04.P8)
+    from .C04 import p8_release_after_completion
+    p8_release_after_completion(F, RuleProxy(R, {'P8': 'R6'}), M)
     for name, carriers in list(drivers.items()) + list(wrappers.items()):
         R.count('driver_structs', 1)
         a = F.adts[name]
